@@ -176,9 +176,9 @@ type Checker struct {
 	S *Spec
 	// Seen: what happened, for non-triviality rules.
 	Failed, Overwrites, Removals, SharedRemovals, DupIDs, DenyHits int
-	Reused     int  // successful re-registrations of the very same node object
-	LastFailed bool // the most recent call failed according to the specification
-	rmpipeNoop bool
+	Reused                                                         int  // successful re-registrations of the very same node object
+	LastFailed                                                     bool // the most recent call failed according to the specification
+	rmpipeNoop                                                     bool
 }
 
 func NewChecker() *Checker { return &Checker{X: NewExec(), S: NewSpec()} }
